@@ -104,7 +104,7 @@ fn op(max_msg: u32) -> impl Strategy<Value = Op> {
     ]
 }
 
-fn strategy(max_len: usize, max_msg: u32) -> impl Strategy<Value = Case> {
+pub fn strategy(max_len: usize, max_msg: u32) -> impl Strategy<Value = Case> {
     (0u8..3, proptest::collection::vec(op(max_msg), 2..max_len)).prop_map(|(set, ops)| Case { set, ops })
 }
 
